@@ -22,7 +22,9 @@ RULE = ("seeded streams: projection (single / stacked / paired, dyadic grid poin
         "points of [-1,1]^3 (492 804 pairs) and [-2,2]^2 (360 000 pairs); the larger 2-D box [-3,3]^2 (5 531 904 pairs) is "
         "only SAMPLED: every 3rd pair in the thorough tier, every 131st in the quick tier - exhaustiveness is claimed for "
         "the two small boxes only (counts and the `exhaustive` flag in coverage.lattice_sweep_*); "
-        "non-trivial = the call returned; distinct by hash of inputs")
+        "far_offset_exact: unit-size dyadic scenes 2^24..2^31 away from the origin for all projection forms and "
+        "intersect_lines (positions judged to 1e-9 of the scene plus 0.75..1.5 ulp per coordinate), intersect_2d_lines there "
+        "relative to the coordinates only; non-trivial = the call returned; distinct by hash of inputs")
 TRUSTED = ["Coq 8.16.1 kernel, vm_compute for the correspondence evaluation",
            "axioms (Print Assumptions): ClassicalDedekindReals.sig_forall_dec, sig_not_dec, "
            "FunctionalExtensionality.functional_extensionality_dep, Classical_Prop.classic (all Coq stdlib Reals)",
@@ -343,9 +345,57 @@ def _run_sweep(dim, box, stride, offset):
             "failing_pairs": nfail, "failures": failures, "seconds": round(time.time() - t0, 1)}
 
 
+def _far_case(rng):
+    """far_offset_exact: a unit-size scene on a dyadic grid translated 2^24..2^31 away from the origin; every coordinate
+    exactly representable, differences of points exact, products of a coordinate with a direction component not"""
+    off = [float(rng.choice([-1, 1]) * 2 ** rng.randint(24, 31)) for _ in range(3)]
+
+    def pos(den=8):
+        return [o + rng.randint(-4 * den, 4 * den) / den for o in off]
+
+    def direction():
+        w = rng.random()
+        g = [0.0, 0.0, 0.0]
+        while not any(g):
+            g = [rng.randint(-196608, 196608) / 65536 for _ in range(3)] if w < 0.6 else grid_vec(rng, -3, 3, 4)
+        return [x * 2.0 ** rng.choice([0, 0, -3, 5]) for x in g]
+
+    u = rng.random()
+    if u < 0.2:
+        return {"kind": "proj_single_far_offset", "far": True, "p": pos(), "ref": pos(), "a": direction()}
+    if u < 0.4:
+        return {"kind": "proj_stack_far_offset", "far": True, "ps": [pos() for _ in range(rng.choice([1, 2, 4]))],
+                "ref": pos(), "a": direction()}
+    if u < 0.55:
+        k = rng.choice([1, 2, 3])
+        return {"kind": "proj_pairs_far_offset", "far": True, "ps": [pos() for _ in range(k)],
+                "refs": [pos() for _ in range(k)], "alongs": [direction() for _ in range(k)]}
+    if u < 0.85:
+        while True:
+            m = pos(4)
+            d0, d1 = [float(rng.randint(-3, 3)) for _ in range(3)], [float(rng.randint(-3, 3)) for _ in range(3)]
+            s0, t0 = rng.sample([-2, -1, 0, 1, 2, 3], 2)
+            s1, t1 = rng.sample([-2, -1, 0, 1, 2, 3], 2)
+            sh = [float(rng.randint(-1, 1)) for _ in range(3)] if rng.random() < 0.25 else [0.0, 0.0, 0.0]
+            p0, q0 = [a + s0 * x for a, x in zip(m, d0)], [a + t0 * x for a, x in zip(m, d0)]
+            p1, q1 = [a + s1 * x + z for a, x, z in zip(m, d1, sh)], [a + t1 * x + z for a, x, z in zip(m, d1, sh)]
+            if p0 != q0 and p1 != q1:
+                return {"kind": "isect3_far_offset", "far": True, "p0": p0, "q0": q0, "p1": p1, "q1": q1}
+    # 2-D: intersect_2d_lines forms p_y dx - dy p_x, which cancels far from the origin by construction of the routine:
+    # judged with the tolerance relative to the coordinates (not wrapped in CFar)
+    while True:
+        o2 = off[:2]
+        pts = [[o + float(rng.randint(-4, 4)) for o in o2] for _ in range(4)]
+        if pts[0] != pts[1] and pts[2] != pts[3]:
+            return {"kind": "isect2_far_offset", "p0": pts[0], "q0": pts[1], "p1": pts[2], "q1": pts[3]}
+
+
 def gen_cases(rng, n, tier):
     cases = []
     for _ in range(n):
+        if rng.random() < 0.04:
+            cases.append(_far_case(rng))
+            continue
         u = rng.random()
         scale = 2.0 ** rng.randint(-10, 10) if tier != "thorough" else 2.0 ** rng.randint(-30, 30)
         if tier != "thorough" and rng.random() < 0.15:
@@ -548,6 +598,13 @@ NANROW = [float("nan")] * 3
 
 
 def coq_case(c, o):
+    t = _coq_case(c, o)
+    if c.get("far") and not c["kind"].startswith("isect2") and not (isinstance(o, dict) and "raise" in o):
+        return "CFar %s (%s)" % (q(_ptol(c)), t)     # positions compared with the absolute far-offset tolerance
+    return t
+
+
+def _coq_case(c, o):
     k = c["kind"]
     if k in ("line_ctor", "line_from_points"):
         obs = "(Raise %s)" % o["raise"] if "raise" in o else "(Ok %s)" % _rows(o["refs"])
@@ -600,6 +657,8 @@ def _finite(row):
 def _near(row, x, mag):
     if not _finite(row) or len(row) != len(x):
         return False
+    if isinstance(mag, tuple):      # ("abs", tolerance): far-offset cases are judged feature-relative, see _ptol
+        return all(abs(Fr(float(e)) - y) <= mag[1] + Fr(3, 4) * max(abs(Fr(float(e))), abs(y)) / 2 ** 51 for e, y in zip(row, x))
     return all(abs(Fr(float(e)) - y) <= Fr(1, 10 ** 8) * max(mag, abs(y)) for e, y in zip(row, x))
 
 
@@ -609,15 +668,24 @@ def _off_line(x, p, d, mag):
     dd = _dot(d, d)
     wd = _dot(w, d)
     dist2 = _dot(w, w) - wd * wd / dd
-    tol = Fr(1, 10 ** 7) * max([mag] + [abs(e) for e in x])
+    tol = (2 * mag[1] + 3 * max(abs(e) for e in x) / 2 ** 51) if isinstance(mag, tuple) else Fr(1, 10 ** 7) * max([mag] + [abs(e) for e in x])
     return dist2 > tol * tol
 
 
-def _project_oracle(p, r, a, row, what):
+def _ptol(c):
+    """feature-relative part of the position tolerance of a far-offset case: 1e-9 of the scene size (8). Each coordinate
+    additionally gets 3/4 * 2^-51 of its own magnitude, i.e. 0.75..1.5 ulp (a correctly computed position carries half
+    an ulp from its last addition); see close_abs in the K file"""
+    return Fr(8, 10 ** 9)
+
+
+def _project_oracle(p, r, a, row, what, far=None):
     p, r, a = _F(p), _F(r), _F(a)
     if all(e == 0 for e in a):
         return None        # zero direction: the property demands nothing of the function (Line refuses it)
     mag = max(abs(e) for e in p + r) or Fr(1)     # relative to the positions (no floor: tiny scales count too)
+    if far is not None:
+        mag = ("abs", far)
     s = _dot(_sub(p, r), a) / _dot(a, a)
     x = [ri + s * ai for ri, ai in zip(r, a)]
     if not _near(row, x, mag):
@@ -654,6 +722,7 @@ def _failures(c, o):
     """every way the property text fails on this case: list of (class tag, message)"""
     k = c["kind"]
     out = []
+    far = _ptol(c) if c.get("far") else None
     if k in ("line_ctor", "line_from_points"):
         along = c["along"] if k == "line_ctor" else [b - a for a, b in zip(c["p1"], c["p2"])]
         f = _line_raise(along, o)
@@ -695,11 +764,11 @@ def _failures(c, o):
             return [("other", "wrong number of rows")]
         tag = "overflow" if _extreme(a) else "other"
         for i, p in enumerate(pts):
-            f = _project_oracle(p, c["ref"], a, fn[i], "project_point_to_line row %d" % i)
+            f = _project_oracle(p, c["ref"], a, fn[i], "project_point_to_line row %d" % i, far)
             if f:
                 out.insert(0, (tag, f))
             if me is not None:
-                f = _project_oracle(p, c["ref"], a, me[i], "Line.project row %d" % i)
+                f = _project_oracle(p, c["ref"], a, me[i], "Line.project row %d" % i, far)
                 if f:
                     out.insert(0, (tag, f))
         return out
@@ -709,7 +778,7 @@ def _failures(c, o):
         for i, p in enumerate(c["ps"]):
             tag = "overflow" if _extreme(c["alongs"][i]) else "other"
             for rows, what in ((o["rows"], "paired"), (o["single"], "single")):
-                f = _project_oracle(p, c["refs"][i], c["alongs"][i], rows[i], "project_point_to_line (%s) row %d" % (what, i))
+                f = _project_oracle(p, c["refs"][i], c["alongs"][i], rows[i], "project_point_to_line (%s) row %d" % (what, i), far)
                 if f:
                     out.append((tag, f))
         return out
@@ -743,6 +812,8 @@ def _isect_oracle(c, o):
     k = c["kind"]
     p0, q0, p1, q1 = (_F(c[n]) for n in ("p0", "q0", "p1", "q1"))
     mag = max(abs(e) for e in p0 + q0 + p1 + q1)   # non-zero: p0 != q0
+    if c.get("far") and k.startswith("isect3"):
+        mag = ("abs", _ptol(c))
     if k.startswith("isect3"):
         e, f, g = _sub(p0, q0), _sub(p1, q1), _sub(p0, p1)
         kk, h = _cross(f, e), _cross(f, g)
